@@ -2,7 +2,7 @@
 //!
 //! Every script of the bounded exploration is executed under the wake-only discipline (baseline) and
 //! then replayed under: an additional sweep polling every task after every event; a spurious poll
-//! inserted at every position for every task; each x {whole-packet, 1-byte reads} x {accept-all,
+//! inserted at every position for every task; each x {whole-packet, 1-byte, 2/3/5-byte re-chunked reads (also of two packets arriving together)} x {accept-all,
 //! 1-byte, Pending-before-every write}. All per-channel observation traces must equal the baseline's
 //! and the reference model must agree at every quiescent point of every run.
 
@@ -14,6 +14,7 @@ use crate::sys::*;
 use crate::wire::WriteMode;
 use crate::world::{Ob, Tid};
 use pvcore::explore::{Chooser, Violation};
+use pvcore::refcodec::SPacket;
 
 pub fn check(tier: Tier) -> Check {
     let parts = vec![Part::new(
@@ -26,7 +27,7 @@ pub fn check(tier: Tier) -> Check {
         also_rel: true,
         property: "C16",
         level: "model_checking",
-        rule: "every event script (operation starts, acknowledgements, subscribe/stream/inbound message) up to the stated depth x polling discipline {wake-only, sweep of all tasks after every event, one spurious poll inserted at every position for every task} x {whole-packet, 1-byte reads} x {accept-all, 1-byte, Pending-first writes}; evaluations counts single runs; non-trivial = a script in which at least one operation completed through an acknowledgement".into(),
+        rule: "every event script (operation starts, acknowledgements, subscribe/stream/inbound message) up to the stated depth x polling discipline {wake-only, sweep of all tasks after every event, one spurious poll inserted at every position for every task} x {whole-packet, 1-byte, 2-, 3-, 5-byte re-chunked reads} x {accept-all, 1-byte, Pending-first writes}; scripts include two packets arriving in one read and a packet with a two-byte remaining length; evaluations counts single runs; non-trivial = a script in which at least one operation completed through an acknowledgement".into(),
         assumptions: vec!["conformant broker".into()],
         parts,
     }
@@ -54,6 +55,7 @@ fn channel_trace(sys: &Sys) -> String {
 
 #[derive(Clone, Copy, Debug)]
 struct Mode {
+    chunk: Option<usize>,
     bytewise: bool,
     write: WriteMode,
     sweep: bool,
@@ -71,6 +73,7 @@ fn run_script(
     sys.params = json!({"mode": format!("{:?}", mode), "spurious": format!("{:?}", spurious)});
     sys.m.check_client_acks = true;
     sys.bytewise_reads = mode.bytewise;
+    sys.read_chunk = mode.chunk;
     sys.sweep = mode.sweep;
     sys.set_write_mode(mode.write);
     sys.bring_up(vec![]);
@@ -132,6 +135,24 @@ pub fn scenario(name: &str, params: &Value) -> Scenario {
             for sb in &sys.m.subs {
                 if let Some(id) = sb.sub_id {
                     e.push(Ev::Deliver(inbound(1, false, 77, &[id], "msg")));
+                    // remaining length of two bytes
+                    e.push(Ev::Deliver(inbound(0, false, 0, &[id], &"L".repeat(140))));
+                }
+            }
+            // two packets arriving in one read (so that re-chunked reads end inside the second one)
+            let singles: Vec<SPacket> = e
+                .iter()
+                .filter_map(|x| if let Ev::Deliver(p) = x { Some(p.clone()) } else { None })
+                .collect();
+            for i in 0..singles.len() {
+                for j in 0..singles.len() {
+                    let same_target = match (&singles[i], &singles[j]) {
+                        (SPacket::Ack { pid: a, .. }, SPacket::Ack { pid: b, .. }) => a == b,
+                        _ => i == j,
+                    };
+                    if i != j && !same_target {
+                        e.push(Ev::DeliverBatch(vec![singles[i].clone(), singles[j].clone()]));
+                    }
                 }
             }
             if e.is_empty() {
@@ -152,8 +173,11 @@ pub fn scenario(name: &str, params: &Value) -> Scenario {
             let mut tids = vec![Tid::Ctx];
             tids.extend((0..ntasks_ops).map(Tid::Op));
             tids.extend((0..nstreams).map(Tid::Stream));
-            'outer: for bytewise in [false, true] {
+'outer: for (bytewise, chunk) in [(false, None), (true, None), (false, Some(2usize)), (false, Some(3)), (false, Some(5))] {
                 for write in [WriteMode::All, WriteMode::OneByte, WriteMode::PendingEach] {
+                    if chunk.is_some() && write != WriteMode::All {
+                        continue;
+                    }
                     let mut variants: Vec<(bool, Option<(usize, Tid)>, Option<(usize, Tid)>)> =
                         vec![(false, None, None), (true, None, None)];
                     for pos in 0..=script.len().saturating_sub(1) {
@@ -161,7 +185,7 @@ pub fn scenario(name: &str, params: &Value) -> Scenario {
                             variants.push((false, Some((pos, *t)), None));
                         }
                     }
-                    if pairs && !bytewise && write == WriteMode::All {
+                    if pairs && !bytewise && chunk.is_none() && write == WriteMode::All {
                         for p1 in 0..script.len() {
                             for p2 in p1..script.len() {
                                 for t1 in &tids {
@@ -173,10 +197,11 @@ pub fn scenario(name: &str, params: &Value) -> Scenario {
                         }
                     }
                     for (sweep, sp, sp2) in variants {
-                        if !bytewise && write == WriteMode::All && !sweep && sp.is_none() {
+                        if !bytewise && chunk.is_none() && write == WriteMode::All && !sweep && sp.is_none() {
                             continue; // that is the baseline
                         }
                         let mode = Mode {
+                            chunk,
                             bytewise,
                             write,
                             sweep,
